@@ -24,10 +24,13 @@ IShapeCases == {[mode |-> "ishape", l |-> l, b |-> b, nlong |-> n, k |-> k, othe
 RegionCases == {[mode |-> "region", route |-> "polygon_real_crs", geo |-> g, pair |-> pr, resk |-> k, anchor |-> an, tight |-> tg, tol |-> tl, shift |-> 0] :
                   g \in {"diamond", "triangle", "line", "box", "multipoint", "bowtie"}, pr \in {"4326>3035", "4326>32633", "3577>4326", "3035>4326", "32633>3857"},
                   k \in {1, 3}, an \in {"edge", "center", "floating"}, tg \in BOOLEAN, tl \in {<<1, 100>>, <<1, 10>>}}
+\* regions whose extent IN THE TARGET CRS has edges a few thousandths of a unit away from whole numbers, on grids with pixels far smaller than a unit
+EdgeCases == {[mode |-> "region", route |-> "polygon_real_crs", geo |-> g, pair |-> pr, resk |-> k, anchor |-> an, tight |-> tg, tol |-> tl, shift |-> 0] :
+                g \in {"box", "diamond"}, pr \in {"3035>4326edge", "32633>4326edge"}, k \in {1, 3}, an \in {"edge", "center", "floating"}, tg \in BOOLEAN, tl \in {<<1, 100>>, <<1, 10>>}}
 VARIABLE c
 Init == c \in {[mode |-> "chunk", k |-> "res", v |-> r] : r \in Rs \cup {-x : x \in Rs}} \cup {[mode |-> "chunk", k |-> "shape", v |-> n] : n \in {1, 2, 5}}
              \cup {[mode |-> "chunk", k |-> "ishape", v |-> 0], [mode |-> "chunk", k |-> "region", v |-> 0]}
-Next == c.mode = "chunk" /\ c' \in (CASE c.k = "res" -> ResCases(c.v) [] c.k = "shape" -> ShapeCases(c.v) [] c.k = "ishape" -> {x \in IShapeCases : x.other < x.nlong * x.k} [] c.k = "region" -> RegionCases) /\ Emit(c')
+Next == c.mode = "chunk" /\ c' \in (CASE c.k = "res" -> ResCases(c.v) [] c.k = "shape" -> ShapeCases(c.v) [] c.k = "ishape" -> {x \in IShapeCases : x.other < x.nlong * x.k} [] c.k = "region" -> RegionCases \cup EdgeCases) /\ Emit(c')
 Spec == Init /\ [][Next]_c
 ModelOK == c.mode # "chunk" => ModelMeetsContract(c)
 =============================================================================
